@@ -226,6 +226,12 @@ fn extract_half_camber_line(
 
         let station = &stations.last().expect("Station was not transferred");
 
+        // In a sharp corner the inscribed radius shrinks towards zero and the end test below never
+        // triggers; once the radius is inside the tolerance the camber line has reached the edge
+        if station.radius() < outer_tol {
+            break;
+        }
+
         match advance_search_along_ray(curve, station) {
             RayAdvance::Valid(r) => {
                 ray = r;
